@@ -113,10 +113,6 @@ def rdf_ineligible(d):
                     qualified.add(okey)
         if anon_by_subject & ident_by_subject:
             return "subject-with-identified-and-anonymous-relation"
-        if plain & qualified:
-            # PROV-O cannot tell "s p o" + a qualified node for (s, o) from one relation
-            # stated both ways (which is how PROV-O recommends stating it)
-            return "binary-triple-restates-qualified-relation"
     return None
 
 
